@@ -170,6 +170,16 @@ func (w *c05World) line(c *Ctx, in string) {
 	}
 }
 
+// Callbacks that are NOT the Demon's last word on a task, but on which the teamserver retires the request id
+// all the same (the task's later callbacks are then dropped).  C05 does not speak about dropping too much, so
+// no demand is made for them (docs/callback-templates-report.md, section A; DESIGN.md, C05).
+var earlyCompleted = map[string]bool{"ie.exception": true, "ie.symbol-not-found": true, "info.memalloc": true, "info.memprotect": true,
+	"info.proccreate": true, "error.token": true, "transfer.remove.notice": true}
+
+// Answers to the relay's own socket jobs (they are queued by the SOCKS goroutines, not issued by an operator, and
+// COMMAND_SOCKET is one of the kinds accepted without an outstanding task): no demand on the request id.
+var relayInternal = map[string]bool{"socket.connect.ok": true, "socket.connect.fail": true, "socket.write.fail": true}
+
 func runC05(c *Ctx) {
 	w := &c05World{}
 	defer func() {
@@ -221,6 +231,13 @@ func runC05(c *Ctx) {
 				continue
 			}
 			t := genCallback(r, fileID)
+			if r.Bool() { // the wide table: 130+ (command, sub-command) callbacks with the Demon's own answer to "is this the last one"
+				more := moreCallbacks(r)
+				t = more[r.Intn(len(more))]
+				if earlyCompleted[t.label] || relayInternal[t.label] {
+					t.final = "?"
+				}
+			}
 			if r.Chance(1, 8) {
 				fileID = r.U32()
 			}
